@@ -46,6 +46,9 @@ pub fn build_core(sc: &Value) -> Box<Core> {
   }
   Cpu::from_json(&sc["cpu"]).load(&mut core.registers);
   core.interrupts_enabled = ime_from(sc["ime"].as_str().unwrap_or("Disabled"));
+  // video RAM / OAM contents loaded behind the bus (graphics programs: the picture is given, the program animates it)
+  if let Some(v) = sc["vram"].as_array() { for (k, b) in v.iter().enumerate() { core.memory.video_ram[k] = ju(b) as u8; } }
+  if let Some(v) = sc["oam"].as_array() { for (k, b) in v.iter().enumerate() { core.memory.oam_ram[k] = ju(b) as u8; } }
   core
 }
 
@@ -104,6 +107,8 @@ pub fn run_scenario(sc: &Value, out: &mut Vec<u8>, cap: &mut Capture, cold_cache
   let steps = ju(&sc["steps"]) as usize;
   let ext: Vec<Value> = sc["ext"].as_array().cloned().unwrap_or_default();
   let mut ok = true;
+  let dump_frames = sc["dump_frames"].as_bool().unwrap_or(false);
+  let mut frame_q = lcd_q(&core);
   for k in 0..steps {
     for e in ext.iter().filter(|e| ju(&e[0]) as usize == k) {
       let b = ju(&e[2]);
@@ -135,6 +140,14 @@ pub fn run_scenario(sc: &Value, out: &mut Vec<u8>, cap: &mut Capture, cold_cache
       "mem": hash_bytes(&[&core.memory.video_ram[..], &core.memory.cart_ram[..], &core.memory.work_ram[..], &core.memory.oam_ram[..], &core.memory.high_ram[..]])}) } else { json!(0) };
     writeln!(out, "{}", json!({"ev": "step", "k": kind, "o": project(&mut core), "wr": wr, "out": serial, "h": hashes,
       "clk": [c1[0] - c0[0], c1[1] - c0[1], c1[2] - c0[2]], "cpu": cpu, "pc0": pc0, "rb0": rb0, "cold": cold_cache})).unwrap();
+    if dump_frames {
+      // the frame the PPU hands over each time the LCD enters line 144
+      let qn = lcd_q(&core);
+      if frame_q < 144 * 456 && qn >= 144 * 456 {
+        writeln!(out, "{}", json!({"ev": "framebuf", "fb": core.get_screen_buffer().to_vec()})).unwrap();
+      }
+      frame_q = qn;
+    }
   }
   // stepping to the next frame (C09): elapsed device clocks, largest single step, LCD position
   let frames = sc["frames"].as_u64().unwrap_or(0);
